@@ -122,7 +122,19 @@ func checkCase(c Case) evid.Outcome {
 		strong = false
 		if d, ok := model.ParseRef(c.Final.R); ok && model.ExpandMethod(c.Final.M) != nil {
 			if _, err := model.Compile(d, len(c.Prefix)); err == nil {
-				all = append(all, c.Final)
+				// ... but only in the method trees where the candidate itself is
+				// acceptable: where it must be rejected it must never serve
+				g := model.NewRegistrar()
+				for _, p := range c.Prefix {
+					for _, m := range model.ExpandMethod(p.M) {
+						g.Add(m, rt.Deriv(p.R))
+					}
+				}
+				for _, m := range model.ExpandMethod(c.Final.M) {
+					if v, _ := g.Check(m, d); v != model.MustReject {
+						all = append(all, rt.Reg{M: m, R: c.Final.R})
+					}
+				}
 			}
 		}
 	}
@@ -152,11 +164,18 @@ func checkCase(c Case) evid.Outcome {
 			// weak form: whoever served it must admit it
 			ok := false
 			for _, a := range model.Admitting(routes, q.P, nil, nil) {
-				if a.Route.Index == hit.Handler {
+				idx := a.Route.Index
+				if idx > len(c.Prefix) {
+					idx = len(c.Prefix) // per-method copies of the candidate
+				}
+				if idx == hit.Handler {
 					ok = true
 				}
 			}
 			if !ok {
+				if hit.Handler == len(c.Prefix) {
+					return evid.Fail("rejected-route-serves", "%s %q was served by the handler of the rejected registration %s %q (%s); history %s", q.M, q.P, c.Final.M, c.Final.R, why, show(c.Prefix))
+				}
 				return evid.Fail("served-by-non-admitting", "%s %q served by registration #%d which does not admit it", q.M, q.P, hit.Handler)
 			}
 		}
@@ -355,19 +374,37 @@ func genCase(t *rapid.T) Case {
 			}
 		}
 	case "dup-bind-across":
-		d = model.Route{Segs: []model.Seg{seg("w"), {Elems: []model.Elem{{Bind: "a"}}}}}
-		switch rapid.IntRange(0, 3).Draw(t, "dk") {
-		case 0:
-			d.Segs = append(d.Segs, model.Seg{Elems: []model.Elem{{Bind: "a"}}})
-		case 1:
-			d.Segs = append(d.Segs, model.Seg{Elems: []model.Elem{{Params: []model.Param{{Name: "a", IsRegex: true, Value: "[0-9]+", Blanks: 1}}}}})
-		case 2:
-			d.Segs = append(d.Segs, model.Seg{Elems: []model.Elem{{Params: []model.Param{{Name: "a", Value: "**", Blanks: 1}}}}})
-		default:
-			d.Segs = append(d.Segs, seg("mid"), model.Seg{Elems: []model.Elem{{Lit: "v"}, {Bind: "a"}}})
+		// first use of the name in a segment of any kind, reuse in a later
+		// segment of any kind, optional static segments around them
+		name := "a"
+		mkUse := func(label string, lastSeg bool) model.Seg {
+			switch rapid.IntRange(0, 4).Draw(t, label) {
+			case 0:
+				return model.Seg{Elems: []model.Elem{{Bind: name}}}
+			case 1:
+				return model.Seg{Elems: []model.Elem{{Params: []model.Param{{Name: name, IsRegex: true, Value: "[0-9]+", Blanks: 1}}}}}
+			case 2:
+				return model.Seg{Elems: []model.Elem{{Lit: "v"}, {Bind: name}}}
+			case 3:
+				return model.Seg{Elems: []model.Elem{{Params: []model.Param{{Name: "o", IsRegex: true, Value: "[a-z]+", Blanks: 1}}}, {Lit: "."}, {Params: []model.Param{{Name: name, IsRegex: true, Value: "[0-9]+", Blanks: 1}}}}}
+			default:
+				return model.Seg{Elems: []model.Elem{{Params: []model.Param{{Name: name, Value: "**", Blanks: 1}}}}}
+			}
 		}
-		if rapid.Bool().Draw(t, "tail") {
+		d = model.Route{}
+		if rapid.Bool().Draw(t, "head") {
+			d.Segs = append(d.Segs, seg("w"))
+		}
+		d.Segs = append(d.Segs, mkUse("use1", false))
+		if rapid.Bool().Draw(t, "mid") {
+			d.Segs = append(d.Segs, seg("mid"))
+		}
+		d.Segs = append(d.Segs, mkUse("use2", true))
+		switch rapid.IntRange(0, 2).Draw(t, "tail") {
+		case 1:
 			d.Segs = append(d.Segs, seg("events"))
+		case 2:
+			d.Segs[len(d.Segs)-1].Optional = true
 		}
 	case "dup-bind-inside":
 		switch rapid.IntRange(0, 2).Draw(t, "dk") {
@@ -495,6 +532,15 @@ func genCase(t *rapid.T) Case {
 		}
 	}
 	c.Reqs = gen.Requests(t, all, 10)
+	if dd, ok := model.ParseRef(text); ok && model.ExpandMethod(m) != nil {
+		if _, err := model.Compile(dd, 0); err == nil {
+			mm := model.ExpandMethod(m)
+			c.Reqs = append(c.Reqs, rt.Req{M: mm[0], P: "/" + strings.Join(gen.Instance(t, dd, false), "/")})
+			if dd.Segs[len(dd.Segs)-1].Optional {
+				c.Reqs = append(c.Reqs, rt.Req{M: mm[len(mm)-1], P: "/" + strings.Join(gen.Instance(t, dd, true), "/")})
+			}
+		}
+	}
 	// every accepted route's own instances, long and short
 	for _, g := range all {
 		dd := rt.Deriv(g.R)
